@@ -35,6 +35,7 @@ theorem step_seen (s : State) (op : Op) (h : op.isDrop = false) : (step s op).se
   | mark => rfl
   | hold => rfl
   | psrelease => rfl
+  | fail => rfl
 
 theorem step_drop_seen (s : State) (i : Nat) : (step s (.dropHandle i)).seen = s.seen := rfl
 
@@ -97,6 +98,7 @@ theorem Same.step {s s' : State} (h : Same s s') (op : Op) : Same (step s op) (s
   | hold => exact ⟨h1, by simp only [Timers.step, h2], h3⟩
   | psrelease => exact ⟨h1, by simp only [Timers.step, h1, h2], h3⟩
   | dropHandle i => exact ⟨h1, h2, h3⟩
+  | fail => exact ⟨h1, by simp only [Timers.step, h2], h3⟩
 
 theorem Same.steps {s s' : State} (h : Same s s') (ops : List Op) : Same (steps s ops) (steps s' ops) := by
   induction ops generalizing s s' with
@@ -160,6 +162,8 @@ theorem mrun_undrop (ms : List MOp) : ∀ {s s' : State}, Same s s' → Same (mr
     | drain => exact hgen _ rfl
     | hold => exact hgen _ rfl
     | psrelease => exact hgen _ rfl
+    | fail => exact hgen _ rfl
+    | advFail d => exact hgen _ rfl
 
 /-! ### periods beyond the horizon, zero periods -/
 
